@@ -69,6 +69,13 @@ def native_replay(res, label, outcomes):
     n, code, tail = hookreplay.run_command(binary, outcomes, COMMANDS[label], timeout=8)
     res.extra.setdefault("native_replays", []).append(
         {"command": COMMANDS[label], "forced_outcomes": outcomes, "runs_started": n, "exit_code": code})
+    if n <= 2:
+        # the path may need Engine::sanitize to fail as well: same outcomes over a cache with an unreadable archive
+        n2, code2, tail2 = hookreplay.run_command(binary, outcomes + ["retry"] * 8, COMMANDS[label], timeout=8, broken_rrdp_archive=True)
+        res.extra["native_replays"].append({"command": COMMANDS[label], "forced_outcomes": outcomes + ["retry"] * 8,
+                                            "cache": "zero-length RRDP archive (sanitize fails)", "runs_started": n2, "exit_code": code2})
+        if n2 > 2:
+            n, code, tail = n2, code2, "with a zero-length RRDP archive in the cache (Engine::sanitize fails):\n" + tail2
     extra = ("native replay (real binary, cfg routinator_verif hook): forced outcomes %s -> %d validation runs "
              "started, exit code %s\n%s" % (outcomes, n, code, tail))
     return extra, n > 2
